@@ -100,6 +100,12 @@ func StatusVars(t *rapid.T, all bool) []refenc.StatusVar {
 		case 6, 5:
 			s := str(40, 255)
 			p = append([]byte{byte(len(s))}, s...)
+			if code == 6 && all && rapid.IntRange(0, 7).Draw(t, "sv_old_catalog") == 0 {
+				// the catalog in the form of 5.0.0 - 5.0.3 masters (Q_CATALOG_CODE = 2): the same
+				// length-prefixed string followed by a NUL that the length does not count
+				code = 2
+				p = append(p, 0)
+			}
 		case 3:
 			p = rb(4)
 		case 7, 8, 18:
